@@ -11,25 +11,34 @@ import FastQr.Spec.BCH
 namespace FastQr.Finite
 open FastQr Model Spec
 
-/-- the module byte ISO prescribes for the blank symbol: region label, standard value for function
-patterns, light for everything not yet written (data and format information cells get their values
-later); version-information cells carry the BCH(18,6) word, most significant bit first in the
-order of Figure 26 -/
+/-- the module byte ISO prescribes for a cell of the blank symbol outside the version-information
+areas: region label, standard value for function patterns, light for everything not yet written
+(data and format information cells get their values later) -/
 def expectedCellIn (x : Regions.Ctx) (r c : Nat) : Nat :=
-  let reg := Regions.regionIn x r c
-  if reg == .version then
-    match (x.vcells.zipIdx.find? fun (rc, _) => rc == (r, c)) with
-    | some (_, i) => mk ((BCH.version18 (x.v + 1) >>> (17 - i % 18)) % 2 == 1) reg.code
-    | none => 255
-  else mk ((Regions.stdValueIn x r c).getD false) reg.code
+  mk ((Regions.stdValueIn x r c).getD false) (Regions.regionIn x r c).code
 
 def expectedCell (v r c : Nat) : Nat := expectedCellIn (Regions.ctx v) r c
+
+/-- version-information cells are only checked for their label here (their values are C04's
+business: `versionCellsOk`); every other cell must be exactly the expected byte -/
+def templateCellOk (x : Regions.Ctx) (r c b : Nat) : Bool :=
+  if Regions.regionIn x r c == .version then mtype b == Region.version.code else b == expectedCellIn x r c
 
 def templateOk (v : Nat) : Bool :=
   let t := template v
   let x := Regions.ctx v
   t.n == x.n && t.cells.size == x.n * x.n && templateTraps v == [] &&
-  (List.range (x.n * x.n)).all fun k => t.cells.getD k 0 == expectedCellIn x (k / x.n) (k % x.n)
+  (List.range (x.n * x.n)).all fun k => templateCellOk x (k / x.n) (k % x.n) (t.cells.getD k 0)
+
+/-- the version-information cells of the blank symbol carry the BCH(18,6) word of the version, most
+significant bit first in the order of Figure 26, in both copies (versions 7..40) -/
+def versionCellsOk (v : Nat) : Bool :=
+  let t := template v
+  let n := Regions.side v
+  v < 6 || ((Regions.versionCells n).zipIdx.all fun (rc, i) =>
+    t.get rc.1 rc.2 == mk ((BCH.version18 (v + 1) >>> (17 - i % 18)) % 2 == 1) Region.version.code)
+
+theorem versionCellsOk_all : (List.range 40).all versionCellsOk = true := by native_decide
 
 theorem templateOk_all : (List.range 40).all templateOk = true := by native_decide
 
